@@ -95,6 +95,14 @@ def execute(case):
     return sim.run_history(case, check_event, pid=ID)
 
 
+def _cluster():
+    '''replies produced by real workers (worker.cluster.execute in process on
+    a real store), see C05'''
+    from .c05 import _cluster_cases
+
+    return _cluster_cases()
+
+
 def _retry_cases():
     '''a full run worked off round by round (dispatch, some replies); in
     some rounds the run-ID request of the first, second or third job of the
@@ -149,6 +157,8 @@ def parts(tier):
                                    'regress')}),
             cases=400 if q else 12500, batch=200,
         ),
+        core.Part('cluster', execute, strategy=_cluster(),
+                  cases=120 if q else 3000, batch=40),
         core.Part('retry', execute, strategy=_retry_cases(),
                   cases=600 if q else 15000, batch=200),
         core.Part(
